@@ -49,9 +49,11 @@ def lower_bound_progress(ctx, repo, R, fi, construct):
     if loop is None:
         ctx.undecided("R-LOWER/progress", construct, fi.where(), "no while loop found", key="loop")
         return
-    idx = loop.test.left.id if isinstance(loop.test, ast.Compare) and isinstance(loop.test.left, ast.Name) else None
-    incs = [s for s in walk_no_nested(loop) if isinstance(s, ast.AugAssign) and isinstance(s.target, ast.Name) and s.target.id == idx
-            and isinstance(s.op, ast.Add)]
+    test_names = {n.id for n in ast.walk(loop.test) if isinstance(n, ast.Name)}
+    cands = [s for s in walk_no_nested(loop) if isinstance(s, ast.AugAssign) and isinstance(s.target, ast.Name)
+             and s.target.id in test_names and isinstance(s.op, ast.Add)]
+    idx = cands[0].target.id if cands else None
+    incs = [s for s in cands if s.target.id == idx]
     if idx is None or len(incs) != 1:
         ctx.undecided("R-LOWER/progress", construct, fi.where(loop), "index increment not recognised", key="inc")
         return
